@@ -41,6 +41,9 @@ CHECKS = {
  "C13": ("exploration", "reference-model monitor: known record offsets / flat data against chunk-bounded reads (SetChunk, Iterator, ChunkReader)",
          "BAM streams are encoded and cut into BGZF members by the independent encoders so that records end on, just before, just after and across member ends; LastChunk of every record is checked against the known offsets and every span i..j (all pairs for small files) and random chunk lists in any order must replay exactly; ChunkReader is driven with arbitrary non-record-aligned chunk lists, both End forms, touching and empty chunks, all buffer sizes.",
          "Chunk lists for ChunkReader are ordered and non-overlapping.", "3 C13"),
+ "C10": ("fault_enumeration", "mutation enumeration (every truncation length, every position x value substitution) with a prefix/identity oracle from an independent parser",
+         "For ten BGZF/BAM streams every cut length (small streams) and every single-byte substitution from the stated value sets is applied and the mutant is read with the real readers (rd 1 and 2); the oracle accepts failure, the original data, or for truncation a clean end only at a member (and record) boundary with everything before it returned and HasEOF false.",
+         "Large streams are sampled away from member boundaries; a NewReader error counts as failure.", "3 C10"),
 }
 NOT_BUILT = "check not built yet in this session; see DESIGN.md section 3 for the planned monitor"
 
